@@ -3,6 +3,8 @@ package util
 import (
 	"bytes"
 	"sync"
+
+	"github.com/scrapli/scrapligo/util/verifhook"
 )
 
 // Queue is a simple queue structure to store and queue/requeue/dequeue bytes.
@@ -26,6 +28,7 @@ func NewQueue() *Queue {
 
 // Requeue prepends some bytes to the front of the queue.
 func (q *Queue) Requeue(b []byte) {
+	verifhook.Acquire("q.lock", q.lock)
 	q.lock.Lock()
 	defer q.lock.Unlock()
 
@@ -34,19 +37,24 @@ func (q *Queue) Requeue(b []byte) {
 
 	q.depth++
 
+	verifhook.Point("q.depth.recv")
 	<-q.depthChan
+	verifhook.Point("q.depth.send")
 	q.depthChan <- q.depth
 }
 
 // Enqueue queues some bytes at the end of the queue.
 func (q *Queue) Enqueue(b []byte) {
+	verifhook.Acquire("q.lock", q.lock)
 	q.lock.Lock()
 	defer q.lock.Unlock()
 
 	q.queue = append(q.queue, b)
 	q.depth++
 
+	verifhook.Point("q.depth.recv")
 	<-q.depthChan
+	verifhook.Point("q.depth.send")
 	q.depthChan <- q.depth
 }
 
@@ -58,6 +66,7 @@ func (q *Queue) Dequeue() []byte {
 		return nil
 	}
 
+	verifhook.Acquire("q.lock", q.lock)
 	q.lock.Lock()
 	defer q.lock.Unlock()
 
@@ -66,7 +75,9 @@ func (q *Queue) Dequeue() []byte {
 	q.queue = q.queue[1:]
 	q.depth--
 
+	verifhook.Point("q.depth.recv")
 	<-q.depthChan
+	verifhook.Point("q.depth.send")
 	q.depthChan <- q.depth
 
 	return b
@@ -78,6 +89,7 @@ func (q *Queue) DequeueAll() []byte {
 		return nil
 	}
 
+	verifhook.Acquire("q.lock", q.lock)
 	q.lock.Lock()
 	defer q.lock.Unlock()
 
@@ -87,7 +99,9 @@ func (q *Queue) DequeueAll() []byte {
 
 	q.depth = 0
 
+	verifhook.Point("q.depth.recv")
 	<-q.depthChan
+	verifhook.Point("q.depth.send")
 	q.depthChan <- q.depth
 
 	return bytes.Join(b, []byte{})
@@ -97,7 +111,9 @@ func (q *Queue) getDepth() int {
 	// rather than locking/unlocking to access the q.depth, we simply grab the depth from the
 	// depthChan and then put it back in and return the value we got. this should be slightly faster
 	// and less cpu than locking/unlocking
+	verifhook.Point("q.depth.recv")
 	d := <-q.depthChan
+	verifhook.Point("q.depth.send")
 	q.depthChan <- d
 
 	return d
@@ -105,6 +121,7 @@ func (q *Queue) getDepth() int {
 
 // GetDepth returns the depth of the queue.
 func (q *Queue) GetDepth() int {
+	verifhook.Acquire("q.rlock", q.lock)
 	q.lock.RLock()
 	defer q.lock.RUnlock()
 
